@@ -291,3 +291,92 @@ def class_spec(spec, cname):
         if c['name'] == cname:
             return c
     raise KeyError(cname)
+
+
+# ---------------------------------------------------------------------------------------------
+# shapes for trace-level checks.  Every shape returns a spec; `entity_classes(spec)` lists the
+# classes a program may instantiate, with the attributes it may set.
+
+def _v(opts_extra=None, **kw):
+    d = dict(opts_extra or {})
+    d.update(kw)
+    return d
+
+
+def shape_articles(opts=None, exclude=(), include=(), key='int', aliased=False, with_comment=False,
+                   plugins=()):
+    """Article (versioned, optional excluded columns) 1-n Tag (versioned), optional non-versioned Comment."""
+    av = {}
+    if exclude:
+        av['exclude'] = list(exclude)
+    if include:
+        av['include'] = list(include)
+    acols = [col('id', key, pk=True), col('name', 'str'), col('content', 'str'), col('secret', 'str')]
+    if aliased:
+        acols[1]['attr'] = 'name_'
+    classes = [
+        {'name': 'Article', 'table': 'article', 'versioned': av, 'columns': acols, 'rels': []},
+        {'name': 'Tag', 'table': 'tag', 'versioned': {}, 'columns': [
+            col('id', 'int', pk=True), col('name', 'str'), col('article_id', key, fk='article.id')],
+         'rels': [{'name': 'article', 'target': 'Article', 'kind': 'm2o', 'backref': 'tags'}]},
+    ]
+    if with_comment:
+        classes.append({'name': 'Comment', 'table': 'comment', 'versioned': None, 'columns': [
+            col('id', 'int', pk=True), col('text', 'str'), col('article_id', key, fk='article.id')],
+            'rels': [{'name': 'article', 'target': 'Article', 'kind': 'm2o', 'backref': 'comments'}]})
+    return {'classes': classes, 'options': dict(opts or {}), 'plugins': list(plugins)}
+
+
+def shape_composite_t(opts=None, plugins=()):
+    return {'classes': [{'name': 'Item', 'table': 'item', 'versioned': {}, 'columns': [
+        col('a', 'int', pk=True), col('b', 'int', pk=True), col('name', 'str'), col('qty', 'int')], 'rels': []}],
+        'options': dict(opts or {}), 'plugins': list(plugins)}
+
+
+def shape_joined(opts=None, levels=2, plugins=()):
+    classes = [
+        {'name': 'TextItem', 'table': 'text_item', 'versioned': {}, 'polymorphic_identity': 'ti', 'columns': [
+            col('id', 'int', pk=True), col('name', 'str'), col('kind', 'str', discriminator=True)], 'rels': []},
+        {'name': 'Article', 'table': 'article', 'parent': 'TextItem', 'inherit': 'joined', 'versioned': None,
+         'polymorphic_identity': 'ar', 'columns': [col('id', 'int', pk=True, fk='text_item.id'), col('content', 'str')],
+         'rels': []},
+    ]
+    if levels >= 3:
+        classes.append({'name': 'BlogPost', 'table': 'blog_post', 'parent': 'Article', 'inherit': 'joined',
+                        'versioned': None, 'polymorphic_identity': 'bp', 'columns': [
+                            col('id', 'int', pk=True, fk='article.id'), col('title', 'str')], 'rels': []})
+    return {'classes': classes, 'options': dict(opts or {}), 'plugins': list(plugins)}
+
+
+def shape_single(opts=None, plugins=()):
+    classes = [
+        {'name': 'TextItem', 'table': 'text_item', 'versioned': {}, 'polymorphic_identity': 'ti', 'columns': [
+            col('id', 'int', pk=True), col('name', 'str'), col('kind', 'str', discriminator=True)], 'rels': []},
+        {'name': 'Article', 'table': None, 'parent': 'TextItem', 'inherit': 'single', 'versioned': None,
+         'polymorphic_identity': 'ar', 'columns': [col('content', 'str')], 'rels': []},
+        {'name': 'BlogPost', 'table': None, 'parent': 'TextItem', 'inherit': 'single', 'versioned': None,
+         'polymorphic_identity': 'bp', 'columns': [col('title', 'str')], 'rels': []},
+    ]
+    return {'classes': classes, 'options': dict(opts or {}), 'plugins': list(plugins)}
+
+
+def shape_m2m(opts=None, plugins=(), self_ref=False):
+    classes = [
+        {'name': 'Article', 'table': 'article', 'versioned': {}, 'columns': [
+            col('id', 'int', pk=True), col('name', 'str')],
+         'rels': [{'name': 'tags', 'target': 'Tag', 'kind': 'm2m', 'secondary': 'article_tag', 'backref': 'articles'}]},
+        {'name': 'Tag', 'table': 'tag', 'versioned': {}, 'columns': [
+            col('id', 'int', pk=True), col('name', 'str')], 'rels': []},
+    ]
+    assoc = [{'name': 'article_tag', 'cols': [['article_id', 'article.id'], ['tag_id', 'tag.id']], 'pk': True}]
+    return {'classes': classes, 'assoc': assoc, 'options': dict(opts or {}), 'plugins': list(plugins)}
+
+
+def is_versioned_class(spec, cname):
+    c = class_spec(spec, cname)
+    while True:
+        if c.get('versioned') is not None:
+            return c['versioned'].get('versioning', True) is not False
+        if not c.get('parent'):
+            return False
+        c = class_spec(spec, c['parent'])
